@@ -42,8 +42,9 @@ def replay_defrag_case(case):
     if not rec["file"] or rec["status"] != "ok":
         return {"n": 0, "keys": [], "fails": [], "validated": 0}
     tm = rotation(case.get("rot", 0)) if case.get("rot") else None
-    fd = to_fd(rec, seed, tm)
     h = zlib.crc32(repr(rec["file"]).encode())
+    # one source in three is big-endian throughout, one in three alternates (the copy is always little-endian)
+    fd = to_fd(rec, seed, tm, flip_be=[None, "be", "swap"][(h // 5 + seed) % 3])
     scaled_chan = add_scaling(fd, rec, tm) if (h + seed) % 3 == 0 else None
     if (h // 7 + seed) % 5 == 0:
         # string channels holding only empty strings
